@@ -20,7 +20,6 @@ import time
 VERIF = os.path.dirname(os.path.dirname(os.path.abspath(__file__)))
 SPEC = os.path.join(VERIF, "spec")
 HARNESS = os.path.join(VERIF, "harness")
-BIN = os.path.join(HARNESS, "bin", "vharness")
 REPO = os.environ.get("VERIF_REPO", "/repo")
 NCPU = os.cpu_count() or 4
 
@@ -42,28 +41,26 @@ def go_env():
     return env
 
 
-_built = False
+_built = {}
 
 
-def build_harness(race=False):
-    """Rebuilds the harness against /repo's current working tree (tag verif)."""
-    global _built
-    out = BIN + ("-race" if race else "")
-    if _built and not race and os.path.exists(out):
+def build_harness(binary, race=False):
+    """Rebuilds one conformance binary (harness/cmd/<binary>) against /repo's current working tree (tag verif)."""
+    out = os.path.join(HARNESS, "bin", binary + ("-race" if race else ""))
+    if _built.get(out) and os.path.exists(out):
         return out
     t0 = time.time()
     shutil.copyfile(os.path.join(REPO, "go.sum"), os.path.join(HARNESS, "go.sum"))
     cmd = ["go", "build", "-tags", "verif", "-o", out]
     if race:
         cmd.append("-race")
-    cmd.append("./cmd/vharness")
+    cmd.append("./cmd/" + binary)
     p = subprocess.run(cmd, cwd=HARNESS, env=go_env(), capture_output=True, text=True)
     if p.returncode != 0:
         log(p.stdout[-4000:], p.stderr[-8000:])
-        raise NotAVerdict("harness build failed")
-    if not race:
-        _built = True
-    log("[build] harness%s built in %.1fs" % (" (race)" if race else "", time.time() - t0))
+        raise NotAVerdict("harness build failed: " + binary)
+    _built[out] = True
+    log("[build] %s%s built in %.1fs" % (binary, " (race)" if race else "", time.time() - t0))
     return out
 
 
@@ -175,9 +172,9 @@ def require_ok(res, what):
     return res
 
 
-def run_harness(sub, cases=None, args=None, timeout=1800, race=False, infile=None, env_extra=None, raw=False):
-    """Feeds ndjson cases to `vharness <sub>`; returns the list of ndjson result objects."""
-    binp = build_harness(race=race)
+def run_harness(binary, sub, cases=None, args=None, timeout=1800, race=False, infile=None, env_extra=None, raw=False):
+    """Feeds ndjson cases to `<binary> <sub>`; returns the list of ndjson result objects."""
+    binp = build_harness(binary, race=race)
     tmpd = tempfile.mkdtemp(prefix="vh-")
     try:
         inp = infile
